@@ -99,6 +99,10 @@ impl Gen {
             Focus::Packing | Focus::Acks => r.chance(50),
             _ => r.chance(25),
         };
+        app.history = match focus {
+            Focus::Ticks => r.chance(50),
+            _ => r.chance(8),
+        };
         app.sync_related = match focus {
             Focus::Packing => r.chance(70),
             _ => r.chance(35),
@@ -632,6 +636,10 @@ impl Gen {
                 if !stall {
                     let dt = self.dt();
                     self.steps.push(Step::ClientFrame { client: c, dt_ms: dt });
+                }
+                if self.prof.app.history && self.r.chance(30) {
+                    let slot = self.r.below(self.prof.slots as usize) as u8;
+                    self.steps.push(Step::ClientMark { client: c, slot });
                 }
                 self.uplink(c);
             }
